@@ -51,7 +51,7 @@ def strip_rust_comments(src):
     return src
 
 
-TOK = re.compile(r"\s*(0x[0-9a-fA-F_]+|0b[01_]+|0o[0-7_]+|[0-9][0-9_]*|[A-Za-z_][A-Za-z0-9_]*(?:::[A-Za-z_][A-Za-z0-9_]*)*|<<|>>|[\[\](){};,:+\-*|&^!=.]|b?\"(?:[^\"\\]|\\.)*\")")
+TOK = re.compile(r"\s*((?:0x[0-9a-fA-F_]+|0b[01_]+|0o[0-7_]+|[0-9][0-9_]*)(?:[ui](?:8|16|32|64|128|size))?|[A-Za-z_][A-Za-z0-9_]*(?:::[A-Za-z_][A-Za-z0-9_]*)*|<<|>>|[\[\](){};,:+\-*|&^!=.]|b?\"(?:[^\"\\]|\\.)*\")")
 SUFFIX = re.compile(r"(?:_?(?:u8|u16|u32|u64|u128|usize|i8|i16|i32|i64|i128|isize))$")
 
 
@@ -355,7 +355,12 @@ def regenerate():
         content = ("-- GENERATED by tools/extract_tables.py from /repo/src on every run. Do not edit.\n"
                    f"namespace Cx.Extracted.{lf}\n\n" + "\n".join(bodies) + f"\nend Cx.Extracted.{lf}\n")
         changed |= write_if_changed(os.path.join(OUT, lf + ".lean"), content)
-    return {"tables": n, "errors": errors, "changed": changed}
+    import kernel_translate
+    kfiles, kerrors, kn = kernel_translate.generate_all()
+    for lf, content in kfiles.items():
+        changed |= write_if_changed(os.path.join(OUT, lf + ".lean"), content)
+    errors += kerrors
+    return {"tables": n, "errors": errors, "changed": changed, "kernels": kn}
 
 
 if __name__ == "__main__":
